@@ -256,7 +256,7 @@ impl<T: Debug + PartialEq, F: RealNumber, D: Distance<T, F>> CoverTree<T, F, D> 
 
         let point = &self.data[0];
         let idx = 0;
-        let mut max_dist = -F::one();
+        let mut max_dist = F::zero();
 
         for i in 1..self.data.len() {
             let dist = self.distance.distance(point, &self.data[i]);
@@ -277,6 +277,13 @@ impl<T: Debug + PartialEq, F: RealNumber, D: Distance<T, F>> CoverTree<T, F, D> 
             &mut point_set,
             &mut consumed_set,
         );
+
+        // the root must be an internal node whose first child is its own leaf,
+        // otherwise a tree built from a single point has nothing to search
+        if self.root.children.is_empty() {
+            let leaf = self.new_leaf(idx);
+            self.root.children.push(leaf);
+        }
     }
 
     fn batch_insert(
